@@ -22,6 +22,16 @@ Decided structurally (on libcnb_runtime, libcnb_runtime_detect, libcnb_runtime_b
   R7 mandatory env CNB_BUILDPACK_DIR, CNB_TARGET_OS/ARCH/DISTRO_NAME/DISTRO_VERSION, descriptor,
                    platform (and plan for build) are read, and their failure propagated, on every path
                    before detect/build runs
+  R8 builders      the public result builders of build.rs / detect.rs hand exactly what the buildpack provided to the
+                   runtime: setters change their own field only (Some(arg) / push(arg)), the finishing functions copy
+                   every field under its own name into the Pass variant (Fail builder: Fail), new builders are empty, and
+                   nothing else constructs the inner result enums
+Deepening (same rules, further necessary conditions): R1 the gate's descriptor type requires the key `api` and the
+comparison is the structural equality of BuildpackApi; R2 nothing but "first argument -> final path component -> text"
+lies between argv and the compared name; R3 parse receives the complete argv and maps position k to the field the CNB
+command line assigns to it; R4 writes moved into helpers are unconditional / checked / truncating at every level, the
+build phase mutates nothing but the four outputs, phase errors are returned (no panic, no exit inside a phase), the SBOM
+path function is injective in (name, format); R7 the inputs are read from their own argument.
 Not decided: that exit terminates, byte-exact file contents, behaviour of the user's detect/build.
 """
 from .lib.discard import result_fates, verdict, diverges
@@ -69,7 +79,8 @@ def run(ctx, rep):
                  ('R3', 'argument arity: exactly 3 (detect) / 4 (build); error handlers diverge'),
                  ('R4', 'exit mapping and output-file table of both phases'),
                  ('R5', 'exit-code constants'), ('R6', 'detect/build called from one site each, not in a loop'),
-                 ('R7', 'mandatory environment and inputs are read and propagated before detect/build')):
+                 ('R7', 'mandatory environment and inputs are read and propagated before detect/build'),
+                 ('R8', 'result builders carry exactly what the buildpack provided')):
         rep.rule(r, d)
     rep.not_decided = ['that process::exit terminates', 'byte-exact contents of written files', 'behaviour of the user\'s detect/build']
     from . import layer_roles
@@ -83,6 +94,7 @@ def run(ctx, rep):
     supported = sl.const_init('libcnb::LIBCNB_SUPPORTED_BUILDPACK_API')
     # ---- R1 / R2 --------------------------------------------------------------------------------------
     phase_calls = {'detect': [c for c in rt.calls if c.name == RD], 'build': [c for c in rt.calls if c.name == RB]}
+    gate_reads = set()      # call sites of the descriptor read whose `api` is compared at the gate
     for phase, cs in phase_calls.items():
         if len(cs) != 1:
             rep.unproven('R2', 'dispatch/' + phase, w(rt), '%d call sites of the %s phase in libcnb_runtime' % (len(cs), phase))
@@ -110,9 +122,13 @@ def run(ctx, rep):
                             if is_read(strip(r)):
                                 desc_ok = True
                                 rep.analysed(h)
+        if api_ok:
+            gate_reads.update(z[3] for cd in conds for x, y in H.eq_views(cd) for a0 in (x, y)
+                              for z in walk(H.norm(prog, sl, a0, keep=(READ_DESC,))) if is_read(z) and len(z) > 3 and z[3])
         rep.check(desc_ok and api_ok, 'R1', 'gate/' + phase, c.where(), '%s phase entered only with descriptor Ok and api == supported' % phase,
                   'the %s phase can be reached without the API check (descriptor_ok=%s api_equal=%s)' % (phase, desc_ok, api_ok))
         name_ok = False
+        name_src = None
         for cd in conds:
             for x, y in H.eq_views(cd):
                 for a0, b0 in ((x, y), (y, x)):
@@ -125,8 +141,17 @@ def run(ctx, rep):
                         any(z[0] == 'call' and z[1] == 'core::slice::<impl [T]>::first' for z in walk(src))
                     if from_argv:
                         name_ok = True
+                        name_src = src
         rep.check(name_ok, 'R2', 'dispatch/' + phase, c.where(), 'entered only when file_name(argv[0]) == "%s"' % phase,
                   'the %s phase is not guarded by the executable name "%s"' % (phase, phase))
+        if name_src is not None:
+            # ... and the compared text IS that component: only "first argument", "final path component" and views of it
+            # as text lie between argv and the comparison (no stem / trimming / case folding / other argument)
+            names, reached = H.name_spine(name_src)
+            extra = [n for n in names if n not in H.NAME_STEPS]
+            once = names.count('std::path::Path::file_name') == 1 and names.count('core::slice::<impl [T]>::first') == 1
+            rep.check(reached and not extra and once, 'R2', 'dispatch/%s/name-exact' % phase, c.where(), 'the compared name is exactly the final component of argv[0]',
+                      'the executable name is transformed before it is compared with "%s": %s' % (phase, [n.rsplit('::', 2)[-1] for n in (extra or names)]))
         # argument value: parse(args).unwrap_or_else(diverging closure)
         av = strip(sl.operand(rt, c.args[1]))
         parse = 'libcnb::runtime::%sArgs::parse' % phase.capitalize()
@@ -153,12 +178,67 @@ def run(ctx, rep):
                     cl = None
         rep.check(good and div, 'R3', 'args/' + phase, c.where(), 'arguments = %s(argv) or a diverging error handler' % parse.split('::')[-2],
                   'phase arguments are not parse(argv) with a diverging error handler: ' + vstr(av)[:120])
+        if good:
+            pc = strip(av[2][0]) if av[1] != parse else av
+            pa = H.norm(prog, sl, pc[2][0]) if pc[0] == 'call' and pc[1] == parse and pc[2] else ('unknown',)
+            rep.check(H.is_argv(pa), 'R3', 'args/%s/argv' % phase, c.where(), '%s receives the complete argument vector' % parse.split('::')[-2],
+                      '%s is not given the complete argv (surplus arguments can go unnoticed): %s' % (parse.split('::')[-2], vstr(pa)[:120]))
         if div and cl is not None:
             hf = prog.fns[cl[1]]
             rep.analysed(hf)
             ex = exit_effects(prog, sl, hf)
             rep.check(bool(ex) and all(bad_code(v) for _, v in ex), 'R3', 'args/%s/exit' % phase, w(hf), 'usage error exits with %s' % [v[1] for _, v in ex],
                       'usage error handler exit codes: %s' % [vstr(v) for _, v in ex])
+    # what the gate compares really is the `api` key of buildpack.toml: the type the gate deserialises has a REQUIRED key
+    # "api" (no default standing in for a missing key) feeding the compared field, and `==` on BuildpackApi is the
+    # structural (derived) equality, so equal means major and minor are equal
+    from .lib import serde_schema
+    tys = set()
+    for site in gate_reads:
+        gf = prog.fns.get(site[0])
+        gc = gf.call_at(site[1]) if gf is not None else None
+        tys.add(gc.ga[0] if gc is not None and gc.ga else None)
+    if len(tys) != 1 or None in tys:
+        rep.unproven('R1', 'gate/api-key', w(rt), 'descriptor type read at the gate not identified: %s' % sorted(map(str, tys)))
+    else:
+        ty = next(iter(tys))
+        sch = serde_schema.deser_struct(prog, sl, ty)
+        keys = [k for k in (sch['keys'].values() if sch else []) if k.field == 'api']
+        if sch is None or sch['kind'] != 'struct' or sch['problems']:
+            rep.unproven('R1', 'gate/api-key', w(rt), 'no derived struct Deserialize for %s (%s)' % (ty, sch and sch['problems']))
+        else:
+            ok = len(keys) == 1 and keys[0].key == 'api' and keys[0].required is True and keys[0].default is None
+            rep.check(ok, 'R1', 'gate/api-key', w(rt), '%s.api <- required key "api"' % ty.split('::')[-1],
+                      'the compared field is not the required key "api" of buildpack.toml: %s' % keys)
+        sup = strip(supported) if supported is not None else ('unknown',)
+        impl = [f for f in prog.fns.values() if sup[0] == 'agg' and f.impl_trait == 'std::cmp::PartialEq' and f.self_head
+                and f.self_head.split('::')[0] == sup[1].split('::')[0] and f.self_head.split('::')[-1] == sup[1].split('::')[-1]]
+        eqf = next((f for f in impl if f.path.endswith('::eq')), None)
+        nef = next((f for f in impl if f.path.endswith('::ne')), None)
+        if eqf is None:
+            rep.unproven('R1', 'gate/api-eq', w(rt), 'PartialEq impl of the API version type not found')
+        else:
+            rep.check(bool(eqf.derived) and nef is None, 'R1', 'gate/api-eq', w(eqf), 'API versions are equal iff major and minor are (derived PartialEq)',
+                      'BuildpackApi has a hand-written equality: "api == supported" no longer means the same version')
+    # ... and the file it is read from is <CNB_BUILDPACK_DIR>/buildpack.toml, nothing else (the descriptor read is shared by
+    # the gate and the phases: one file, found through the mandatory variable)
+    rdesc = prog.fns.get(READ_DESC)
+    if rdesc is None:
+        rep.unproven('R1', 'gate/descriptor-path', w(rt), '%s not found' % READ_DESC)
+    else:
+        rep.analysed(rdesc)
+        reads = [e for e in E.expand(rdesc, 'may') if e.kind in ('READ', 'STAT_FOLLOW', 'STAT_NOFOLLOW', 'LIST', 'CWD')]
+        def is_bpdir(v):
+            while v[0] == 'call' and len(v[2]) == 1 and v[1].endswith(H.CONVERTERS):      # String -> PathBuf
+                v = strip(v[2][0])
+            return v[0] == 'call' and v[1] == 'std::env::var' and bool(v[2]) and strip(v[2][0]) == ('const', 'CNB_BUILDPACK_DIR')
+        cps = L.comps(sl.inline_deep(reads[0].path), is_bpdir) if len(reads) == 1 and reads[0].kind == 'READ' else None
+        seen_as = [(e.kind, vstr(sl.inline_deep(e.path))[:70] if e.path else '') for e in reads[:3]]
+        if len(reads) == 1 and reads[0].kind == 'READ' and cps is None:
+            rep.unproven('R1', 'gate/descriptor-path', reads[0].where(), 'cannot read the descriptor path as <CNB_BUILDPACK_DIR>/<name>: %s' % seen_as)
+        else:
+            rep.check(cps == ('buildpack.toml',), 'R1', 'gate/descriptor-path', reads[0].where() if reads else w(rdesc), 'the descriptor is <CNB_BUILDPACK_DIR>/buildpack.toml',
+                      'the descriptor is looked for in %s' % seen_as)
     for phase, n in (('Detect', 3), ('Build', 4)):
         pf = prog.fn('libcnb::runtime::%sArgs::parse' % phase)
         rep.analysed(pf)
@@ -169,6 +249,26 @@ def run(ctx, rep):
         good = rng == (n, n)
         rep.check(good, 'R3', 'arity/' + phase, w(pf), '%sArgs::parse succeeds only for exactly %d arguments' % (phase, n),
                   '%sArgs::parse can succeed for an argument count other than %d (counts %s..%s)' % (phase, n, rng[0], rng[1]))
+    # `detect <platform_dir> <buildplan>` / `build <layers> <platform> <plan>`: the Ok value of parse carries argv[k] in the
+    # field the command line assigns to position k (whatever the spelling: slice pattern, indexing, split_first + array)
+    for phase, table in (('Detect', {'platform_dir_path': 1, 'build_plan_path': 2}),
+                         ('Build', {'layers_dir_path': 1, 'platform_dir_path': 2, 'buildpack_plan_path': 3})):
+        pf = prog.fn('libcnb::runtime::%sArgs::parse' % phase)
+        okv = strip(sl.mk_unwrap(sl.inline_deep(sl.local(pf, 0)), 1)) if pf.argc == 1 else ('unknown',)
+        root = ('param', pf.path, 0, pf.local_name(1))
+        fv = dict(okv[3]) if okv[0] == 'agg' and okv[1] == 'libcnb::runtime::%sArgs' % phase else None
+        if fv is None:
+            rep.unproven('R3', 'argmap/' + phase, w(pf), 'success value of parse is not a literal of %sArgs: %s' % (phase, vstr(okv)[:100]))
+            continue
+        plain = strip(sl.mk_unwrap(sl.local(pf, 0), 1))
+        own = {n: x for n, x in plain[3]} if plain[0] == 'agg' and plain[1] == okv[1] else {}
+        for fld, k in table.items():
+            # (an index kept in a local is only resolved when the field value was computed in parse itself)
+            got = H.elem_pos(prog, sl, fv[fld], root, pf if own.get(fld) == fv[fld] else None) if fld in fv else None
+            if got is None:
+                rep.unproven('R3', 'argmap/%s/%s' % (phase, fld), w(pf), 'cannot tell which argument becomes %s: %s' % (fld, vstr(fv.get(fld, ('unknown',)))[:100]))
+            else:
+                rep.check(got == k, 'R3', 'argmap/%s/%s' % (phase, fld), w(pf), '%s <- argv[%d]' % (fld, k), '%s is taken from argv[%d], the command line puts it at position %d' % (fld, got, k))
     # Every exit the runtime can perform outside the phases either carries a constant error code or forwards the phase
     # result.  Exits are taken from the interprocedural MAY effects of libcnb_runtime (so an exit moved into a private
     # gate function or into a handler closure is the same exit), and the exit value is decomposed into an arm table:
@@ -308,6 +408,12 @@ def run(ctx, rep):
             ok3 = fv[0] == 'call' and fv[1] == callee
             rep.check(ok3 and fields.get(fld, ('x',))[0] == 'unwrap', 'R7', '%s/input/%s' % (m, fld), c.where(), '%s <- %s(..)? (failure propagated)' % (fld, callee.split('::')[-1]),
                       'context field %s is not the ?-propagated result of %s: %s' % (fld, callee, vstr(fields.get(fld, ('unknown',)))[:100]))
+            src = {'platform': 'platform_dir_path', 'buildpack_plan': 'buildpack_plan_path'}.get(fld)
+            if ok3 and src:
+                # ... read from the argument the lifecycle passes for it
+                a = strip(fv[2][0]) if fv[2] else ('unknown',)
+                rep.check(a[0] == 'field' and a[2] == src and a[1][0] == 'param' and a[1][2] == 1, 'R7', '%s/input/%s/source' % (m, fld), c.where(),
+                          '%s is read from args.%s' % (fld, src), '%s is read from %s, not from args.%s' % (fld, vstr(a)[:80], src))
     # ---- R4 detect table ---------------------------------------------------------------------------------
     outs = outcomes(E, rd)
     seen = set()
@@ -353,11 +459,23 @@ def run(ctx, rep):
                               'with a plan, Ok(0) is only reached through the write', 'Ok(0) can be returned with a plan without writing it')
                 fa = verdict(result_fates(prog, top.fn, top))
                 rep.check(fa == 'ok', 'R4', 'detect/Pass/plan-write-propagated', e.where(), 'write error propagated', 'write result: ' + fa)
+                why = H.chain_always(E, prog, e) + ([] if e.call.name in H.TRUNCATING else ['%s does not replace an existing file' % e.call.name])
+                rep.check(not why, 'R4', 'detect/Pass/plan-write-helper', e.where(), 'the helper writes (replacing the file) whenever it succeeds',
+                          'the write of the build plan inside its helper: %s' % '; '.join(why))
             else:
                 rep.violated('R4', 'detect/Pass/plan-write', where, 'expected exactly one conditional write on the Pass arm, found %s' % [(e.kind, vstr(e.path)[:50]) for e in wr])
         else:
             rep.unproven('R4', 'detect/arm/' + arm, where, 'success outcome on unrecognised arm returning ' + vstr(v)[:80])
     rep.check(seen == {'Fail', 'Pass'}, 'R4', 'detect/arms', w(rd), 'outcomes for Fail and Pass', 'detect outcomes cover arms %s' % sorted(seen))
+    # ... and on the whole way to either result (not only after the decision) nothing in the file system is changed but the
+    # plan file by that one write: a failed detection leaves a pre-existing plan file exactly as it was
+    for o in outs:
+        dec = [c for c, s_, lv in o.decisions() if c.enum == 'libcnb::detect::InnerDetectResult']
+        arm = next(iter(dec[-1].outcome)) if dec and len(dec[-1].outcome) == 1 else '?'
+        after = {id(e) for e in o.region(dec[-1], [lv for c, s_, lv in o.decisions() if c is dec[-1]][-1], o.may)} if dec else set()
+        early = [e for e in o.may if e.kind in MUTATING and id(e) not in after and not H.elsewhere(e.path, rd)]
+        rep.check(not early, 'R4', 'detect/%s/no-other-mutation' % arm, early[0].where() if early else w(rd), 'nothing is written or removed before the detection result is known',
+                  'the detect phase changes the file system whatever the result: %s' % [(e.kind, vstr(e.path)[:60] if e.path else '') for e in early[:3]])
     # ---- R4 build table ----------------------------------------------------------------------------------
     # write_all is part of the vocabulary here: `File::create(p).and_then(|mut f| f.write_all(d))` is `fs::write(p, d)`
     E2 = Effects(prog, sl, vocab=H.WRITE_DATA)
@@ -379,6 +497,7 @@ def run(ctx, rep):
                     if y[0] == 'call' and y[1] == 'libcnb::buildpack::Buildpack::build':
                         return True
             return False
+        known_writes = []
         for fname, fld in (('launch.toml', 'launch'), ('store.toml', 'store')):
             es = [e for e in o.may if e.kind == 'WRITE' and L.comps(e.path, ld) == (fname,)]
             if len(es) != 1:
@@ -414,6 +533,13 @@ def run(ctx, rep):
             ok = (bool(some) or implied) and data_ok and always and verdict(result_fates(prog, top.fn, top)) == 'ok'
             rep.check(ok, 'R4', 'build/' + fname, e.where(), '%s written iff result.%s is Some, error propagated' % (fname, fld),
                       '%s: guarded_by_Some(%s)=%s data_from_result=%s always_on_Some=%s' % (fname, fld, bool(some) or implied, data_ok, always))
+            # the same inside the helper(s) the write goes through: unconditional, checked, and replacing a file that exists
+            guard_fn = some[0][0].fn.path if some else next((c.fn.path for c in levels if c.fn.kind == 'Closure'), None) if implied else None
+            first = 1 + max([i for i, c in enumerate(levels) if c.fn.path == guard_fn] or [0])
+            why = H.chain_always(E, prog, e, first) + ([] if e.call.name in H.TRUNCATING else ['%s does not replace an existing file' % e.call.name])
+            rep.check(not why, 'R4', 'build/%s/helper' % fname, e.where(), 'the helper writes (replacing the file) whenever it succeeds',
+                      'the write of %s inside its helper: %s' % (fname, '; '.join(why)))
+            known_writes.append(e)
         # every SBOM of result.<fld> is written: FORALL write effects on every path to success — of a loop, an iterator
         # consumer, or a loop nest whose outer loop ranges over a literal table of (collection, name, ..) rows (unrolled)
         must_all = list(o.must) + H.nested_must(E2, rb, [site.bb])
@@ -438,3 +564,146 @@ def run(ctx, rep):
             ok = bool(gs) and all(g[0] == base and g[1] and g[3] for g in gs)
             rep.check(ok, 'R4', 'build/sbom/' + fld, gs[0][2].where() if gs else w(rb), 'every %s element written to the "%s" SBOM path of its format' % (fld, base),
                       '%s are written as %s' % (fld, [(g[0], g[1], g[3]) for g in gs] if gs else 'nothing on every path'))
+        # "exactly": a successful build changes nothing in the file system but launch.toml, store.toml and the SBOM files
+        # (no other file written, nothing removed / renamed — e.g. a pre-existing store.toml survives a result without store);
+        # fixed absolute locations that do not depend on the arguments (the telemetry file of the `trace` feature under /tmp)
+        # are not among the places the lifecycle passes or looks at
+        is_sbom = lambda e: e.kind == 'WRITE' and strip(e.path)[0] == 'call' and strip(e.path)[1] == SBOM_PATH
+        other = [e for e in o.may if e.kind in MUTATING and not is_sbom(e) and not any(e.call is k.call for k in known_writes) and not H.elsewhere(e.path, rb)]
+        rep.check(not other, 'R4', 'build/no-other-mutation', other[0].where() if other else w(rb), 'a successful build only writes launch.toml, store.toml and SBOM files',
+                  'a successful build also performs %s' % [(e.kind, vstr(e.path)[:60] if e.path else '') for e in other[:3]])
+        trunc = [e for e in sb if e.call.name not in H.TRUNCATING]
+        rep.check(not trunc, 'R4', 'build/sbom/replaces', trunc[0].where() if trunc else w(rb), 'SBOM files replace existing ones', 'SBOM files are written with %s' % [e.call.name for e in trunc[:2]])
+        # the SBOM path: <layers>/<name><per-format text>, total and injective in the format, so no two provided SBOMs of
+        # one kind share a file and build / launch files never coincide
+        pfn = prog.fns.get(SBOM_PATH)
+        if pfn is None:
+            rep.unproven('R4', 'build/sbom/path-fn', w(rb), 'SBOM path function %s not found' % SBOM_PATH)
+        else:
+            rep.analysed(pfn)
+            probs, table = H.sbom_path_shape(prog, sl, pfn)
+            rep.check(not probs, 'R4', 'build/sbom/path-fn', w(pfn), 'SBOM path = <dir>/<name + per-format suffix>, one distinct suffix per format: %s' % sorted(table.items()),
+                      'SBOM path function: ' + '; '.join(probs))
+    # ---- R4 errors of a phase are returned ---------------------------------------------------------------------
+    # "on any error calls the error handler once": the handler is called by libcnb_runtime on the Err the phase RETURNS,
+    # so inside a phase (and the helpers it reaches) no failure may end the process on its own: no exit, no unwrap /
+    # expect on a fallible value, no handler that never returns
+    for phase, pfn_ in (('detect', rd), ('build', rb)):
+        fns = []
+        for x in prog.reach([pfn_]):
+            g = prog.fns.get(x) if isinstance(x, str) else x
+            if g is not None and g.path != SBOM_PATH:
+                fns.append(g)
+        exits = [e for e in E.expand(pfn_, 'may') if e.kind == 'EXIT']
+        raised = H.raised_errors(prog, sl, fns)
+        rep.check(not exits and not raised, 'R4', '%s/errors-returned' % phase, (exits[0].where() if exits else raised[0][0].where() if raised else w(pfn_)),
+                  'every failure inside the %s phase is returned to libcnb_runtime' % phase,
+                  'a failure inside the %s phase ends the process without on_error: %s' % (phase, [e.via() for e in exits[:2]] + ['%s in %s' % (wh, c.fn.path.split('::')[-1]) for c, wh in raised[:2]]))
+    # ---- R8 builders ---------------------------------------------------------------------------------------
+    builders(prog, sl, rep)
+
+
+def builders(prog, sl, rep):
+    """R8: the inner result enums are crate-private; what libcnb_runtime_detect / _build see is what the public builders
+    put there.  Each builder function is read as a transformation of `self` (H.self_updates) / as the value it returns
+    with private helpers inlined."""
+    w = lambda f: '%s:%d' % (f.file, f.line)
+
+    def setter(group, path, field, how):
+        f = prog.fns.get(path)
+        key = '%s/set/%s' % (group, path.split('::')[-1])
+        if f is None:
+            rep.unproven('R8', key, '-', 'builder method %s not found' % path)
+            return
+        rep.analysed(f)
+        ups = H.self_updates(prog, sl, f)
+        if ups is None or f.argc != 2:
+            rep.unproven('R8', key, w(f), 'cannot read %s as a change of self' % path.split('::')[-1])
+            return
+        arg = ('param', f.path, 1, f.local_name(2))
+        ops = ups.get(field, [])
+        good = set(ups) == {field} and len(ops) == 1
+        if good and how == 'some':
+            good = ops[0][0] == 'set' and H.some_of(ops[0][1]) == arg
+        elif good:
+            good = ops[0][0] == 'push' and strip(ops[0][1]) == arg
+        rep.check(good, 'R8', key, w(f), '%s: self.%s %s, nothing else' % (path.split('::')[-1], field, '= Some(arg)' if how == 'some' else '.push(arg)'),
+                  '%s changes %s' % (path.split('::')[-1], {k: [(op, vstr(v)[:50] if isinstance(v, tuple) else v) for op, v in x] for k, x in ups.items()}))
+
+    def finish(group, path, inner, variant, fields):
+        f = prog.fns.get(path)
+        key = '%s/finish/%s' % (group, '::'.join(path.split('::')[-2:]))
+        if f is None:
+            rep.unproven('R8', key, '-', 'builder method %s not found' % path)
+            return None
+        rep.analysed(f)
+        v = strip(sl.inline_deep(sl.local(f, 0)))
+        if v[0] == 'agg' and v[1] == 'std::result::Result':
+            if v[2] != 'Ok':
+                rep.violated('R8', key, w(f), 'finishing a builder returns an error')
+                return None
+            v = strip(v[3][0][1])
+        if v[0] == 'agg' and v[1] != inner and len(v[3]) == 1:
+            v = strip(v[3][0][1])          # the public newtype around the inner enum
+        if not (v[0] == 'agg' and v[1] == inner):
+            rep.unproven('R8', key, w(f), 'result is not a literal of %s: %s' % (inner.split('::')[-1], vstr(v)[:100]))
+            return None
+        me = ('param', f.path, 0, f.local_name(1)) if f.argc else None
+        got = dict(v[3])
+        bad = [n for n in fields if strip(got.get(n, ('unknown',))) != ('field', me, n)]
+        rep.check(v[2] == variant and not bad and set(got) == set(fields), 'R8', key, w(f), '%s => %s{%s}' % (path.split('::')[-1], variant, ', '.join('%s: self.%s' % (n, n) for n in fields)),
+                  '%s builds %s with %s' % (path.split('::')[-1], v[2], {n: vstr(got.get(n, ('unknown',)))[:50] for n in (bad or got)}))
+        return f.path
+
+    def fresh(group, path, adt):
+        f = prog.fns.get(path)
+        key = '%s/new/%s' % (group, path.split('::')[-1])
+        if f is None:
+            rep.unproven('R8', key, '-', 'builder constructor %s not found' % path)
+            return
+        rep.analysed(f)
+        v = strip(sl.inline_deep(sl.local(f, 0)))
+        if not (v[0] == 'agg' and v[1] == adt):
+            rep.unproven('R8', key, w(f), 'a new builder is not a literal of %s: %s' % (adt.split('::')[-1], vstr(v)[:100]))
+            return
+        full = [n for n, x in v[3] if not H.empty_init(x)]
+        rep.check(not full, 'R8', key, w(f), 'a new builder provides nothing', 'a new builder already provides %s' % full)
+
+    def variant_fields(adt, variant):
+        a = prog.adts.get(adt)
+        for vv in (a['variants'] if a else []):
+            if vv['name'] == variant:
+                return [x['name'] for x in vv['fields']]
+        return None
+
+    B, IB = 'libcnb::build::BuildResultBuilder', 'libcnb::build::InnerBuildResult'
+    P, FB, ID = 'libcnb::detect::PassDetectResultBuilder', 'libcnb::detect::FailDetectResultBuilder', 'libcnb::detect::InnerDetectResult'
+    bf, df = variant_fields(IB, 'Pass'), variant_fields(ID, 'Pass')
+    if bf is None or df is None or variant_fields(ID, 'Fail') is None:
+        rep.unproven('R8', 'inner-results', '-', 'InnerBuildResult::Pass / InnerDetectResult::{Pass, Fail} not found')
+        return
+    known = set()
+    fresh('build', B + '::new', B)
+    for m, fld, how in (('launch', 'launch', 'some'), ('store', 'store', 'some'), ('build_sbom', 'build_sboms', 'push'), ('launch_sbom', 'launch_sboms', 'push')):
+        if fld not in bf:
+            rep.unproven('R8', 'build/set/' + m, '-', 'InnerBuildResult::Pass has no field %s' % fld)
+            continue
+        setter('build', B + '::' + m, fld, how)
+    for m in ('build_unwrapped', 'build'):
+        known.add(finish('build', B + '::' + m, IB, 'Pass', bf))
+    fresh('detect', 'libcnb::detect::DetectResultBuilder::pass', P)
+    if 'build_plan' in df:
+        setter('detect', P + '::build_plan', 'build_plan', 'some')
+    else:
+        rep.unproven('R8', 'detect/set/build_plan', '-', 'InnerDetectResult::Pass has no field build_plan')
+    for m in ('build_unwrapped', 'build'):
+        known.add(finish('detect', P + '::' + m, ID, 'Pass', df))
+        known.add(finish('detect', FB + '::' + m, ID, 'Fail', []))
+    # nothing else makes an inner result (the finishing functions above are the only constructors)
+    for group, adt in (('build', IB), ('detect', ID)):
+        cons = H.constructors(prog, adt)
+        extra = sorted(x for x in cons if x not in known)
+        if extra:
+            rep.unproven('R8', group + '/constructors', '-', '%s is also constructed in %s' % (adt.split('::')[-1], extra))
+        else:
+            rep.holds('R8', group + '/constructors', '-', '%s is only constructed by the builders' % adt.split('::')[-1])
